@@ -324,7 +324,14 @@ def deck_bytes(deck):
         if len(phs) > 1:
             phs[1].width = 3456789
         # a blank paragraph between two others (an element that is empty apart from what getters add to it)
-        prs.slides[0].shapes.add_textbox(0, 0, 914400, 914400).text_frame.text = "first\n\nthird"
+        tb = prs.slides[0].shapes.add_textbox(0, 0, 914400, 914400)
+        tb.text_frame.text = "first\n\nthird"
+        # text replaced by a script in paragraphs PowerPoint had touched: runs without a:rPr next to the
+        # a:endParaRPr (language, dirty flag) PowerPoint leaves at the end of every paragraph it edited
+        for k, p_ in enumerate(tb.text_frame.paragraphs):
+            e = p_._p.makeelement("{http://schemas.openxmlformats.org/drawingml/2006/main}endParaRPr",
+                                  {"lang": ("en-GB", "de-DE", "en-US")[k % 3], "dirty": "0"})
+            p_._p.append(e)
         # groups moved / scaled as a whole (a:off, a:ext differ from a:chOff, a:chExt: the frame is not the members'
         # bounding box, as PowerPoint writes after the user drags or resizes a group)
         for sl in prs.slides:
